@@ -400,7 +400,17 @@ func txEvent(src, pos string, cell *boc.Cell, a, b *tlb.Transaction, full bool) 
 	ba, erra := a.SourceBoc()
 	bb, errb := b.SourceBoc()
 	e["boc"], e["bocc"] = hex.EncodeToString(ba), hex.EncodeToString(bb)
-	e["bocerr"] = ev.ErrClass(erra) + ev.ErrClass(errb)
+	// a caller owns the bytes it was given: wipe them and ask again — every answer must be the transaction's bag
+	for i := range ba {
+		ba[i] = 0
+	}
+	for i := range bb {
+		bb[i] = 0xff
+	}
+	ba2, erra2 := a.SourceBoc()
+	bb2, errb2 := b.SourceBoc()
+	e["boc2"], e["bocc2"] = hex.EncodeToString(ba2), hex.EncodeToString(bb2)
+	e["bocerr"] = ev.ErrClass(erra) + ev.ErrClass(errb) + ev.ErrClass(erra2) + ev.ErrClass(errb2)
 	im := ev.M{"p": a.Msgs.InMsg.Exists, "pc": b.Msgs.InMsg.Exists}
 	if a.Msgs.InMsg.Exists && b.Msgs.InMsg.Exists {
 		im["h"], im["hn"] = msgReport(&a.Msgs.InMsg.Value.Value)
